@@ -45,3 +45,10 @@ CHECKS["C19"] = dict(
     rule="for each of ~55 byte-taking entry points (decoders of curve, scalar, ed25519, sr25519, ecvrf; single/expanded/batch/cached/sr25519/ECVRF verification; X25519; message expanders; transcript operations): every length 0..2*size+2 (0..300/700 for variable-length arguments) x 5 content classes (zeros, 0xff, valid encoding truncated/zero-extended, valid encoding 0xff-extended, valid encoding repeated) x nil x {fresh, previously set} receiver, each call under recover(); oracle: no panic outside the documented allow-list (keyed by function and condition), wrong length => error/false, the valid encoding is accepted, after a failure the receiver equals the documented neutral value (types that document a reset) or is bit-identical to its pre-call value. Non-trivial = wrong-length case or a case derived from a valid encoding",
     assumptions=["content classes, not all byte strings (the exact accept sets are C05/C10/C11/C12/C15)"],
 )
+
+CHECKS["C06"] = dict(
+    bin="c06", level="exploration", engine="matrix", extra_pass="c06_matrix", digest_dir=True,
+    technique="differential exhaustive enumeration: one deterministic workload over every exported operation of every public package on the shared alphabets, executed in all four backend configurations; the digest streams must be identical line by line",
+    rule="workload = every exported function/method of curve, curve/scalar, ed25519, cache, ecvrf, sr25519, merlin, h2c, x25519 (plus the Keccak permutation on all 1600 single-bit states) on the shared alphabets; one SHA-256 digest per (operation, case) over canonical output bytes, booleans and error/panic CONDITIONS (not message text); the four streams are compared line by line. Non-trivial = every case (each one is executed in four backends)",
+    assumptions=["differential: a fault common to all four backends is invisible here (it is what the oracle-based checks are for)"],
+)
